@@ -81,7 +81,7 @@ func (c12) Build(tier string, seed uint64) []any {
 	}
 	k := 0
 	for q := 1; q <= 100; q++ {
-		n := 2
+		n := 6
 		if th {
 			n = 40
 		}
@@ -115,7 +115,7 @@ func (c12) Build(tier string, seed uint64) []any {
 		c.W, c.H = 1+r.Intn(64), 1+r.Intn(64)
 		cs = append(cs, c)
 	}
-	nMid, nBig := 150, 12
+	nMid, nBig := 600, 30
 	if th {
 		nMid, nBig = 12000, 500
 	}
